@@ -26,6 +26,8 @@ def configs(tier, seed):
             for isn in ("any", "near-wrap"):
                 for nrec in range(1, T["R"] + 1):
                     for ncuts in range(1 if transform == "cuts+coalesced" else 0, T["cuts"] + 1):
+                        if nrec + ncuts > 4:
+                            continue          # 3 records with 2-3 cuts (and 2 with 3): hours per configuration
                         out.append({"name": "%s-%s-%s-r%d-c%d" % (main_dir, transform, isn, nrec, ncuts), "harness": "segmentation",
                                     "main": main_dir, "transform": transform, "isn": isn, "mode": "real", "nrec": nrec,
                                     "ncuts": ncuts, **T})
@@ -51,7 +53,7 @@ def configs(tier, seed):
 def bounds(tier):
     T = _tier(tier)
     return {"records in the stream under test": "<= %d, payload 0..%d bytes each, every type/version/content byte symbolic" % (T["R"], T["P"]),
-            "cut points": "every set of <= %d cut points (solver-chosen, all positions)" % T["cuts"],
+            "cut points": "every set of <= %d cut points (solver-chosen, all positions); records + cuts <= 4" % T["cuts"],
             "duplicates": "<= %d exact duplicate of any segment re-inserted at any later position; or one coalesced retransmission (a segment together "
                           "with its successor in one packet, same sequence number as the first) at any position after the first of the two" % T["dups"],
             "reordering": "one segment displaced by <= %d places within its direction" % T["disp"],
